@@ -177,12 +177,16 @@ func tempProjects(c *core.Ctx, n, years int) []*gen.Project {
 		r := rngFor(c, 1900+int64(i))
 		o := gen.Opts{Years: years, MinLayers: 1, MaxLayers: 20, ColdWinters: i%2 == 0, BulkExplicit: i%2 == 1, HighCorg: i%3 == 0, ShallowGW: i%3 == 1,
 			Drought: i%4 == 0 || i%5 == 2, HeavyRain: i%4 == 2 && i%5 != 2, NoCrops: i%5 == 0, Stones: i%6 == 1, Peat: i%7 == 6}
+		// measured bulk densities below 0.567 g/cm3: the conductivity formula is negative there (known finding H21)
+		if i%10 == 9 {
+			o.LowBulk, o.BulkExplicit, o.Peat = true, false, false
+		}
 		// every parameter source feeds the heat scheme: the four pedotransfer functions in turn
 		if i%4 == 3 {
 			o.PTF, o.Peat = 1+(i/4)%4, false
 		}
 		p := gen.Random(r, fmt.Sprintf("t%d_%d", c.Seed, i), o)
-		p.Arms = append(p.Arms, fmt.Sprintf("ptf=%d bulkExplicit=%v", o.PTF, o.BulkExplicit))
+		p.Arms = append(p.Arms, fmt.Sprintf("ptf=%d bulkExplicit=%v lowBulk=%v", o.PTF, o.BulkExplicit, o.LowBulk))
 		if i%5 == 2 {
 			// organic horizons (fen peat, up to 40 % organic carbon, loose) through dry spells
 			for k := range p.Soil.Horizons {
